@@ -35,7 +35,7 @@ func (Engine) Info(prop string) core.Info {
 			"every signature ends in the regime of the run (serial|tcp plus -split, -eager, -coalesced, -maxframe from the plan and -disc-during-dial, -bufrace from what the model observed); the generator gives a run at most one of the plan-level stress features, so the plain regimes serial and tcp keep every clause strict",
 			"a Flush or Write issued after the TNC reported the end of the link is not judged (the library's select between 'flushed' and 'EOF' is random there)",
 		},
-		QuickRuns:    120000,
+		QuickRuns:    100000,
 		ThoroughRuns: 1000000,
 		WatchdogSec:  120,
 	}
